@@ -198,7 +198,7 @@ fn subsets(env: &mut Env, n: usize, t: usize, exhaustive: bool) -> Vec<Vec<usize
             all
         };
         res.push((0..n).collect());
-        for _ in 0..3 { res.push(pick(env, t)); }
+        for _ in 0..(if t == n { 1 } else { 3 }) { res.push(pick(env, t)); }
         if t < n { res.push(pick(env, t + 1)); }
         if t >= 2 { for _ in 0..2 { res.push(pick(env, t - 1)); } }
         if t >= 3 { res.push(pick(env, 1)); }
@@ -808,6 +808,7 @@ fn replay() {
     std::io::Read::read_to_string(&mut std::io::stdin(), &mut s).unwrap();
     let v: J = serde_json::from_str(&s).unwrap();
     let v = if v.get("replay").is_some() { v["replay"].clone() } else { v };
+    let v = if v.get("case").is_some() { v["case"].clone() } else { v };
     let d = if v.get("dump").is_some() { v["dump"].clone() } else if v.get("dump_rs").is_some() { v["dump_rs"].clone() } else { v };
     let cdi: Cdi = de(&unhex(d["cdi"].as_str().unwrap())).expect("cdi");
     let ip: IpInfo<IpPairing> = de(&unhex(d["ip_info"].as_str().unwrap())).expect("ip_info");
@@ -824,7 +825,7 @@ fn main() {
     let a: Vec<String> = std::env::args().collect();
     match a[1].as_str() {
         "lincheck" => lincheck(),
-        "replay" => replay(),
+        "replay" => { if guarded(replay).is_err() { println!("{}", json!({"error": "replay input could not be decoded"})); } }
         "pipeline" => { let seed: u64 = a[2].parse().unwrap(); pipeline(seed, a[3] == "thorough", a[4].parse().unwrap(), a[5].parse().unwrap(), None) }
         "one" => { let seed: u64 = a[2].parse().unwrap(); pipeline(seed, a[3] == "thorough", 0, 1, Some(a[4].parse().unwrap())) }
         "configs" => { let seed: u64 = a[2].parse().unwrap(); for c in configs(seed, a[3] == "thorough") { println!("{:?}", c); } }
